@@ -15,6 +15,9 @@ def main():
     checks = [prop]
     if '--checks' in sys.argv:
         checks = sys.argv[sys.argv.index('--checks') + 1].split(',')
+    stored = '--stored' in sys.argv  # re-evaluate a change already confirmed and kept under /verif/seeded
+    if stored:
+        return evaluate('%s-%s' % (prop, m), checks, json.load(open('/verif/seeded/%s-%s/meta.json' % (prop, m))))
     diff = os.path.join(wt, m + '.diff')
     demo = os.path.join(wt, 'demo', 'zz_demo_%s_test.go' % m)
     src = open(demo).read()
@@ -60,6 +63,11 @@ def main():
     md = os.path.join(wt, 'MUTANTS.md')
     if os.path.exists(md):
         shutil.copy(md, os.path.join(out, 'AGENT_NOTES.md'))
+    return evaluate(sid, checks, meta)
+
+
+def evaluate(sid, checks, meta):
+    out = os.path.join('/verif/seeded', sid)
     # -- run the checks against a scratch copy of /repo's HEAD with the change applied (never /repo itself here,
     #    so that work on /repo can go on; the registered checks themselves always run on /repo)
     scratch = '/tmp/seedrepo-%s' % sid
@@ -75,14 +83,15 @@ def main():
     env2 = 'GOVC_REPO=%s GOVC_OUT=/tmp/seedout-%s GOVC_EVIDENCE=/tmp/seedout-%s/evidence' % (scratch, sid, sid)
     try:
         for c in checks:
-            rc, o = sh('%s ./check %s' % (env2, c), '/verif', timeout=3600)
+            rc, o = sh('%s ./check %s' % (env2, c), os.environ.get('VERIF_ROOT', '/verif'), timeout=3600)
             vio = [l for l in o.splitlines() if l.startswith('VIOLATION')]
             caught[c] = {'rc': rc, 'violations': vio[:5], 'n': len(vio), 'summary': o.strip().splitlines()[-1] if o.strip() else ''}
             print('  check %s: rc=%d, %d VIOLATION lines%s' % (c, rc, len(vio), (' e.g. ' + vio[0]) if vio else ''))
     finally:
         sh('git worktree remove --force %s' % scratch, '/repo')
         shutil.rmtree('/tmp/seedout-%s' % sid, ignore_errors=True)
-    meta['checks'] = caught
+    meta.setdefault('checks', {}).update(caught)
+    caught = meta['checks']
     meta['detected_by'] = [c for c, v in caught.items() if v['rc'] == 1]
     old = {}
     mp = os.path.join(out, 'meta.json')
